@@ -4,6 +4,7 @@ import json, os, re
 import vlib
 
 INF = 10 ** 12
+GRACE_MS = 500      # a session's end is processed by the core within this time after its connection ended
 
 SESSION_TRACE_CFG = """SPECIFICATION TraceSpec
 CONSTANTS
@@ -67,11 +68,18 @@ def postprocess(src, dst):
                     op["switched"] = v["switched"]      # the client library's handshake switched the protocol version
                 log.append(op)
             closed = False
+            # upper bound (logical time) for the processing of this session's end by the core, see below
+            end_bound = INF
+            if v.get("closed_ms") is not None:
+                later_ = [r_["inv"] for v2 in sc["sessions"].values() for r_ in v2["log"]
+                          if r_.get("inv_ms") is not None and r_["inv_ms"] >= v["closed_ms"] + GRACE_MS and "inv" in r_]
+                if later_:
+                    end_bound = min(later_) - 0.5
             for r in v["log"]:
                 r = dict(r)
                 r["c"] = cid
                 if r["op"] == "close":
-                    log.append({"op": "closed", "c": cid, "inv": r.get("inv", 0), "ret": INF})
+                    log.append({"op": "closed", "c": cid, "inv": r.get("inv", 0), "ret": end_bound})
                     closed = True
                     continue
                 if r["op"] == "acquire":
@@ -111,9 +119,16 @@ def postprocess(src, dst):
                         cands.append(i)
                         if log[i].get("op") != "acquire":
                             break
+                # When was the session's end processed by the server?  Not before the connection's end was seen;
+                # and - the server ends the session in its core right after it drops the connection - not later
+                # than GRACE_MS afterwards: requests other sessions sent after that come after the session's end.
+                bound = end_bound
                 # srv: the SERVER ended this session - the specification must have a reason for that
+                for i in range(start, cands[-1] + 1):
+                    if none(log[i]):
+                        log[i]["ret"] = bound          # what ended the session had been handled by then as well
                 for n_, idx in enumerate(reversed(cands)):
-                    m_ = {"op": "closed", "c": cid, "srv": True, "inv": log[idx].get("inv", 0) if log else 0, "ret": INF}
+                    m_ = {"op": "closed", "c": cid, "srv": True, "inv": log[idx].get("inv", 0) if log else 0, "ret": bound}
                     if n_ == 0:
                         m_["last"] = True
                     log.insert(idx + 1, m_)
@@ -138,6 +153,7 @@ def postprocess(src, dst):
             for r in log:
                 r.pop("inv", None)
                 r.pop("ret", None)
+                r.pop("inv_ms", None)
         streams = {}
         for k, evs in sc["streams"].items():
             lst = []
@@ -388,6 +404,7 @@ def gen_c17(rnd, tier):
         # when everybody is done the witness takes stock: how many sessions does the server count, are the
         # keys the offenders locked free again (for an offender that is gone), is its own data still there
         w = sc["sessions"]["c1"]
+        w.append({"op": "sleep", "ms": GRACE_MS + 200})
         t = 900
         for k in rnd.sample(KEYS, 3):
             w += [{"op": "lock", "c": "c1", "key": k, "tid": t, "wait": True}, {"op": "release", "c": "c1", "key": k, "tid": t + 1, "wait": True}]
